@@ -40,10 +40,12 @@ func delegatePart(t *testing.T, env vh.Env) {
 	var cases []DelegCase
 	if env.Replay != "" {
 		var c DelegCase
-		if err := vh.LoadReplayCase(env.Replay, &c); err != nil || c.Kind != "delegate" {
+		if err := vh.LoadReplayCase(env.Replay, &c); err != nil || (c.Kind != "delegate" && c.Kind != "restart") {
 			return
 		}
-		cases = append(cases, c)
+		if c.Kind == "delegate" {
+			cases = append(cases, c)
+		}
 	} else {
 		n := 4
 		if env.Tier == "thorough" {
@@ -65,6 +67,7 @@ func delegatePart(t *testing.T, env vh.Env) {
 			run.Count("delegate_part", fmt.Sprintf("%s: %d joiners got the log", c.Variant, c.Joins))
 		}
 	}
+	restartJudge(env, run)
 	if err := run.Finish("delegate part: real cluster.Peers on loopback, a joiner obtains the sender's notification log through the push/pull full state of its join although the message also holds a part for an unknown state key / a silences part it refuses (several joins = several part orders); judged, no model cases"); err != nil {
 		t.Fatal(err)
 	}
